@@ -5,6 +5,9 @@
 -/
 import Snmp.Lemmas.TableLemmas
 import Snmp.Lemmas.WalkAbs
+import Snmp.Lemmas.SingleRoot
+import Snmp.Props.C01
+import Snmp.Props.C02
 namespace Snmp.Props.C16
 open Snmp Snmp.Table
 
@@ -213,6 +216,100 @@ theorem C16_walk_yields_table (db : List VarBind) (root : Oid) (hs : SortedDb db
   rfl
 
 /- non-vacuity: a sparse two-column table with two-component indexes and neighbours -/
+theorem sortedDb_iff (db : List VarBind) : SortedDb db ↔ WalkAbs.Sorted (db.map (·.1)) := by
+  unfold SortedDb WalkAbs.Sorted; rw [List.pairwise_map]
+
+theorem tableOf_sorted (db : List VarBind) (root : Oid) (hs : SortedDb db) :
+    ((tableOf db root).map (·.1)).Pairwise (· < ·) := by
+  rw [List.pairwise_map]
+  exact List.Pairwise.filter _ hs
+
+/-- from "complete, sound, ascending, database entries only" to the exact list -/
+theorem yields_eq_tableOf (db : List VarBind) (root : Oid) (hs : SortedDb db) (hroot : ∀ e ∈ db, e.1 ≠ root)
+    (r : Walk.Result)
+    (hcomp : ∀ vb ∈ db, (∃ r0 ∈ [root], r0 <+: vb.1 ∧ vb.1 ≠ r0) → vb ∈ r.yields)
+    (hdb : ∀ vb ∈ r.yields, vb ∈ db)
+    (hsound : ∀ y ∈ Walk.yieldOids r.events, ∃ r0 ∈ [root], r0 <+: y)
+    (hasc : (Walk.yieldOids r.events).Pairwise (· < ·)) :
+    r.yields = tableOf db root := by
+  have hs' := (sortedDb_iff db).mp hs
+  have hyo : Walk.yieldOids r.events = r.yields.map (·.1) := by rw [Walk.yieldOids_eq, Walk.yields_eq]
+  apply Walk.keyed_ext db hs' _ _ hdb (fun v hv => (mem_tableOf.mp hv).1)
+  rw [← hyo]
+  apply Walk.sorted_ext _ _ hasc (tableOf_sorted db root hs)
+  intro o
+  constructor
+  · intro ho
+    have ho' := ho
+    rw [hyo] at ho'
+    obtain ⟨vb, hvb, rfl⟩ := List.mem_map.mp ho'
+    obtain ⟨r0, hr0, hpre⟩ := hsound vb.1 ho
+    simp only [List.mem_singleton] at hr0
+    subst hr0
+    exact List.mem_map_of_mem (f := (·.1)) (mem_tableOf.mpr ⟨hdb vb hvb, hpre, hroot vb (hdb vb hvb)⟩)
+  · intro ho
+    obtain ⟨e, he, rfl⟩ := List.mem_map.mp ho
+    obtain ⟨h1, h2, h3⟩ := mem_tableOf.mp he
+    rw [hyo]
+    exact List.mem_map_of_mem (f := (·.1)) (hcomp e h1 ⟨root, by simp, h2, h3⟩)
+
+/-- **`table(entry)` on the Python-faithful model**: against the conformant agent of any sorted
+    database, the GETNEXT walk of the entry ends normally and yields exactly the agent's instances
+    below the entry — the same bindings, in database order. -/
+theorem C16_getnext_yields (db : List VarBind) (pol : BulkPolicy) (entry : Oid) (lenient : Bool) (fuel : Nat)
+    (hs : SortedDb db) (hv : ∀ vb ∈ db, vb.2.isEom = false) (hroot : ∀ e ∈ db, e.1 ≠ entry)
+    (hfuel : db.length ≤ fuel) :
+    let r := Walk.walkGetnext (Walk.exchangeOf (Agent.conformant db) db pol) [entry] lenient fuel
+    r.outcome = .done ∧ r.yields = tableOf db entry := by
+  intro r
+  have hs' := (sortedDb_iff db).mp hs
+  have hpf : Walk.PrefixFree [entry] := by unfold Walk.PrefixFree; simp
+  have hc := Snmp.Props.C01.C01_complete db pol [entry] lenient fuel hs' hv hpf hfuel
+  have hsn := Snmp.Props.C01.C01_sound_nodup (Walk.multigetnext (Walk.exchangeOf (Agent.conformant db) db pol)) [entry] lenient fuel
+  have hasc := Snmp.Props.C01.C01_single_ascending (Walk.exchangeOf (Agent.conformant db) db pol) entry lenient fuel
+  exact ⟨hc.1, yields_eq_tableOf db entry hs hroot r hc.2.1 hc.2.2 hsn.2 hasc⟩
+
+/-- **`bulktable(table)` on the Python-faithful model**: the same for the bulk walk, any repetition
+    count, any truncation policy of the agent. -/
+theorem C16_bulk_yields (db : List VarBind) (pol : BulkPolicy) (tbl : Oid) (size fuel : Nat)
+    (hsize : 1 ≤ size) (hs : SortedDb db) (hv : ∀ vb ∈ db, vb.2.isEom = false) (hroot : ∀ e ∈ db, e.1 ≠ tbl)
+    (hfuel : db.length ≤ fuel) :
+    let r := Walk.walkBulk (Walk.exchangeOf (Agent.conformant db) db pol) size [tbl] fuel
+    r.outcome = .done ∧ r.yields = tableOf db tbl := by
+  intro r
+  have hs' := (sortedDb_iff db).mp hs
+  have hpf : Walk.PrefixFree [tbl] := by unfold Walk.PrefixFree; simp
+  have hc := Snmp.Props.C02.C02_bulk_complete (Walk.exchangeOf (Agent.conformant db) db pol) db [tbl] size fuel hsize hs' hv
+    hpf (by simp) (Walk.exchange_conformantBulk db pol) hfuel
+  have hsn := Snmp.Props.C02.C02_bulk_sound_nodup (Walk.exchangeOf (Agent.conformant db) db pol) size [tbl] fuel
+  have hasc := Walk.bulk_single_ascending (Walk.exchangeOf (Agent.conformant db) db pol) size tbl fuel
+  exact ⟨hc.1, yields_eq_tableOf db tbl hs hroot r hc.2.1 hc.2.2 hsn.2 hasc⟩
+
+/-- **Both fetch variants return the same rows** — as a theorem about the two API paths on the
+    faithful model: `table(tbl.1)` (GETNEXT walk of the entry, `len(entry)` base nodes) and
+    `bulktable(tbl)` (bulk walk of the table OID, `len(tbl)+1` base nodes) hand `tablify` the same
+    bindings in the same order, so they return the same rows in the same order, for every SMI
+    conceptual table, repetition count and truncation policy. -/
+theorem C16_api_agree (db : List VarBind) (pol : BulkPolicy) (tbl : Oid) (size fuel : Nat) (lenient : Bool)
+    (hsize : 1 ≤ size) (hs : SortedDb db) (hv : ∀ vb ∈ db, vb.2.isEom = false)
+    (hno : ∀ e ∈ db, e.1 ≠ tbl)
+    (hsmi : ∀ e ∈ db, tbl <+: e.1 → e.1 ≠ tbl → (tbl ++ [1]) <+: e.1 ∧ e.1 ≠ tbl ++ [1])
+    (hfuel : db.length ≤ fuel) :
+    let x := Walk.exchangeOf (Agent.conformant db) db pol
+    tablify (Walk.walkGetnext x [tbl ++ [1]] lenient fuel).yields (tbl ++ [1]).length =
+      tablify (Walk.walkBulk x size [tbl] fuel).yields (tbl.length + 1) := by
+  intro x
+  have hno1 : ∀ e ∈ db, e.1 ≠ tbl ++ [1] := by
+    intro e he heq
+    have hpre : tbl <+: e.1 := by rw [heq]; exact List.prefix_append _ _
+    exact (hsmi e he hpre (hno e he)).2 heq
+  have h1 := C16_getnext_yields db pol (tbl ++ [1]) lenient fuel hs hv hno1 hfuel
+  have h2 := C16_bulk_yields db pol tbl size fuel hsize hs hv hno hfuel
+  have h3 := C16_variants_agree db tbl hsmi
+  simp only at h1 h2
+  rw [h1.2, h2.2]
+  exact h3.2.symm
+
 def exDb : List VarBind :=
   [([1,3,1,0], .int 9), ([1,3,2,1,1,5,1], .int 1), ([1,3,2,1,1,5,2], .int 2), ([1,3,2,1,2,5,1], .str [65]), ([1,3,3,0], .int 7)]
 example : (tablify (tableOf exDb [1,3,2,1]) 4).toOption.map (·.length) = some 2 := by decide
